@@ -700,6 +700,10 @@ func OpenWith(path, tsFile string, nLog, hLog, cLog appendable.Appendable, opts 
 		t.committedNLogSize = validatedCLogEntry.finalNLogSize
 		t.committedHLogSize = validatedCLogEntry.finalHLogSize
 		t.minOffset = t.root.minOffset()
+
+		// the root loaded from disk is what a failed insertion rolls back to
+		t.lastSnapRoot = t.root
+		t.lastSnapRootAt = time.Now()
 	}
 
 	metricsBtreeNodesDataBeginOffset.WithLabelValues(t.path).Set(float64(t.minOffset))
